@@ -37,14 +37,20 @@ fn c19_native_pending_without_wake() {
         // second poll: the connection is accepted, setup fails
         let second = Pin::new(&mut listener).poll_next(&mut ctx);
         let pending = second.is_pending();
+        let surfaced = match &second {
+            Poll::Ready(Some(Err(_))) => "Ready(Some(Err))",
+            Poll::Ready(None) => "Ready(None)",
+            _ => "no",
+        };
         let _c2 = std::net::TcpStream::connect(addr).unwrap();
         tokio::time::sleep(Duration::from_millis(300)).await;
         let woken_after = count.0.load(Ordering::SeqCst);
         println!(
-            "C19-NATIVE woken_for_first_connection={} second_poll_pending={} wakeups_after_failed_setup_and_new_connection={}",
-            woken_for_c1, pending, woken_after
+            "C19-NATIVE woken_for_first_connection={} second_poll_pending={} wakeups_after_failed_setup_and_new_connection={} failed_setup_surfaced_as_stream_item={}",
+            woken_for_c1, pending, woken_after, surfaced
         );
         assert!(woken_for_c1 >= 1);
+        assert!(surfaced == "no", "a failed connection setup surfaced as {}: rpki's Server::run stops on it", surfaced);
         assert!(!pending || woken_after >= 1,
             "poll_next returned Pending after a failed setup and nothing ever wakes the task again");
     });
